@@ -74,7 +74,7 @@ def go_case(c, cid, rnd, schedule=None, rand=None, sizes=None, props=None, notra
         "closers": [{"name": k, "arg": v} for k, v in sorted(c["closers"].items())],
         "serve": c["serve"], "reads": c["reads"], "max_faults": c["maxfaults"],
         "senders": senders(c), "seed": rnd.randrange(1, 1 << 30), "max_steps": max_steps,
-        "no_trace": notrace, "codec": codec, "swallow": c.get("swallow", False), "scribble": c.get("trackbufs", False),
+        "no_trace": notrace, "codec": ("delim" if codec is True else (codec or "")), "swallow": c.get("swallow", False), "scribble": c.get("trackbufs", False),
     }
     if schedule is not None:
         case["schedule"] = schedule
